@@ -34,10 +34,10 @@ Example C05_roundtrip_nonvacuous :
 Proof. vm_compute. repeat split. eexists. repeat split. Qed.
 
 (* the scanners of Model/Parse.v were written for exactly these sources of
-   peel_off_esc_code and remove_ansi (SHA-1 of the function sources, regenerated from the
-   tree on every run); an edit of either function breaks this obligation *)
+   peel_off_esc_code and remove_ansi (SHA-1 of the patterns and flags the two functions hand to the re module, observed at run
+   time and regenerated from the tree on every run); an edited pattern or flag breaks this obligation *)
 Theorem C05_regex_sources_tie :
-  peel_src_hash = [99; 51; 50; 97; 56; 98; 49; 97; 55; 98; 100; 52; 100; 56; 55; 99; 102; 102; 51; 54; 102; 56; 100; 48; 98; 56; 56; 98; 56; 99; 50; 48; 54; 53; 97; 99; 101; 56; 52; 51] /\
-  remove_ansi_src_hash = [56; 49; 52; 49; 49; 101; 51; 99; 54; 101; 98; 50; 101; 98; 53; 97; 49; 55; 102; 49; 53; 101; 97; 52; 101; 48; 52; 51; 54; 54; 53; 102; 53; 97; 54; 51; 52; 52; 54; 50].
+  peel_src_hash = [57; 49; 53; 48; 49; 50; 52; 50; 57; 102; 55; 49; 57; 49; 97; 54; 100; 102; 50; 56; 57; 102; 98; 51; 97; 55; 56; 55; 51; 55; 101; 97; 55; 101; 51; 52; 51; 57; 57; 53] /\
+  remove_ansi_src_hash = [97; 53; 100; 100; 56; 50; 97; 53; 101; 51; 50; 52; 50; 102; 48; 97; 100; 50; 50; 57; 97; 53; 48; 50; 56; 99; 57; 55; 101; 57; 102; 99; 100; 56; 50; 97; 54; 101; 98; 100].
 Proof. exact regex_sources_tie. Qed.
 Print Assumptions C05_regex_sources_tie.
